@@ -69,7 +69,9 @@ func (m *RawManager) Close() {
 		if m.logger != nil {
 			m.logger.Printf("closing")
 		}
+		vEmit("CloseBegin", 0, 0)
 		m.closeNodeConns()
+		vEmit("CloseEnd", 0, 0)
 	})
 }
 
